@@ -47,6 +47,15 @@ def generate(rng, tier):
         # mix lengths straddling the 50 character fast-path boundary
         values = [rng.choice(gen.STR_NEAR50 + gen.STR_SHORT[:3]) if v is not None else None for v in values]
     fn = rng.choice(["sort", "sort", "rank", "rank", "rank", "unique"])
+    if fn == "unique" and kind == "ostr" and rng.random() < 0.5:
+        if rng.random() < 0.5:
+            # strings that read like a missing value next to real missing values
+            values = [None if v is None else rng.choice(["None", "nan", "x", "1", ""]) for v in values]
+            tags.add("ostr_nullish")
+        else:
+            # numbers kept as objects: equal values that print differently (1 and 1.0)
+            kind = "onum"
+            values = gen.gen_values(rng, kind, n, na, dup, hostile=0.0)
     case = {"kind": kind, "values": values, "fn": fn, "tags": sorted(tags)}
     if fn == "sort":
         case["dir"] = rng.choice([1, -1])
